@@ -7,12 +7,13 @@ from .. import machine, kernel
 from ..world import library_self_check
 
 SPACES = ["A", "B", "C"]
+EXTRA = ["D", "E"]
 NAMES = ["d1", "d2", "d3"]
 
 
 def swarm(rng):
     return {"n_steps": rng.choice([10, 16, 24, 32]), "two_models": rng.random() < 0.4, "p_hostile": rng.choice([0.1, 0.25]),
-            "p_save": rng.choice([0.05, 0.15])}
+            "p_save": rng.choice([0.05, 0.15]), "structure": rng.random() < 0.6, "modules": rng.random() < 0.4}
 
 
 class Session:
@@ -21,13 +22,14 @@ class Session:
         self.cfg = ctx.cfg
         self.rng = ctx.rng("ops")
         self.dir = None
-        self.models = []       # dicts: {"m": Model, "values": {vid: DataFrame}, "bind": {(space, name): vid}}
+        self.models = []       # dicts: {"m": Model, "values": {vid: value}, "bind": {(space, name): vid}, "spaces": {name: [bases]}}
         self.nv = 0
         self.events = []
 
     def new_model(self, name):
         m = mx.new_model(name)
-        rec = {"m": m, "values": {}, "bind": {}, "paths": {}}
+        rec = {"m": m, "values": {}, "bind": {}, "paths": {}, "plain": {}, "kind": {}, "text": {},
+               "spaces": {"A": [], "B": ["A"], "C": []}}
         self.models.append(rec)
         m.new_space("A")
         m.new_space("B", bases=m.A)
@@ -38,17 +40,51 @@ class Session:
         self.nv += 1
         return pd.DataFrame({"x": [self.nv, self.nv + 1], "y": [1.5, 2.5]})
 
+    def module_source(self):
+        self.nv += 1
+        if self.dir is None:
+            self.dir = self.ctx.tmpdir("io")
+        src = "TAG = %d\n\ndef triple(x):\n    return 3 * x + TAG\n" % self.nv
+        p = os.path.join(self.dir, "src_mod_%d.py" % self.nv)
+        with open(p, "w") as f:
+            f.write(src)
+        return p, src
+
     def container(self, rec, where):
         return rec["m"] if where == "" else rec["m"].spaces[where]
 
     # ---- expected state ------------------------------------------------------
+    def mro(self, rec, where):
+        """C3 order of the mirrored spaces, by CPython; None if there is none."""
+        classes = {}
+
+        def build(n, stack=()):
+            if n in classes:
+                return classes[n]
+            if n in stack:
+                raise TypeError("cycle")
+            bs = tuple(build(b, stack + (n,)) for b in rec["spaces"][n])
+            c = type(n, bs or (object,), {})
+            classes[n] = c
+            return c
+        try:
+            return [k.__name__ for k in build(where).__mro__ if k is not object]
+        except TypeError:
+            return None
+
     def visible(self, rec, where, name):
-        """vid bound to `name` as seen from `where` (B derives from A)."""
-        if (where, name) in rec["bind"]:
-            return rec["bind"][(where, name)]
-        if where == "B" and ("A", name) in rec["bind"]:
-            return rec["bind"][("A", name)]
+        """("vid", v) | ("plain", x) | None for `name` as seen from `where`: own, then bases in C3 order, then the model."""
+        chain = [""] if where == "" else (self.mro(rec, where) or [where]) + [""]
+        for w in chain:
+            if (w, name) in rec["bind"]:
+                return ("vid", rec["bind"][(w, name)])
+            if (w, name) in rec["plain"]:
+                return ("plain", rec["plain"][(w, name)])
         return None
+
+    def visible_vid(self, rec, where, name):
+        v = self.visible(rec, where, name)
+        return v[1] if v and v[0] == "vid" else None
 
     def live_vids(self, rec):
         return set(rec["bind"].values())
@@ -58,66 +94,82 @@ class Session:
         k = op["op"]
         rec = self.models[op["mi"] % len(self.models)]
         m = rec["m"]
+        if "where" in op and op["where"] != "" and op["where"] not in rec["spaces"]:
+            return
         self.events.append(repr(op))
-        if k == "new_pandas":
+        if k in ("new_pandas", "new_module"):
             cont = self.container(rec, op["where"])
             if self.dir is None:
                 self.dir = self.ctx.tmpdir("io")
-            df = self.frame()
-            vid = self.nv
             path = op["path"]
             specs0 = list(m.iospecs)
             bind0 = dict(rec["bind"])
+            val = None
+            text = None
             try:
-                cont.new_pandas(op["name"], path, df, file_type="csv")
+                if k == "new_pandas":
+                    val = self.frame()
+                    vid = self.nv
+                    cont.new_pandas(op["name"], path, val, file_type="csv")
+                else:
+                    srcp, text = self.module_source()
+                    vid = self.nv
+                    val = cont.new_module(op["name"], path, srcp)
                 ok = True
             except Exception as e:
                 ok = False
                 self.events.append("rejected %s" % type(e).__name__)
             if ok:
-                rec["values"][vid] = df
+                rec["values"][vid] = val
                 rec["bind"][(op["where"], op["name"])] = vid
+                rec["plain"].pop((op["where"], op["name"]), None)
                 rec["paths"][vid] = path
+                rec["kind"][vid] = k
+                rec["text"][vid] = text
             else:
                 self.ctx.count("rejected_creations", 1, "reach")
                 if [id(s) for s in m.iospecs] != [id(s) for s in specs0]:
                     raise Violation("C18/rejected-creation-left-a-spec", {"op": op})
-                if op["name"] in getattr(cont, "refs") and (op["where"], op["name"]) not in bind0 and self.visible(rec, op["where"], op["name"]) is None:
+                if val is not None and op["name"] in getattr(cont, "refs") and (op["where"], op["name"]) not in bind0 \
+                        and self.visible(rec, op["where"], op["name"]) is None:
                     try:
                         v = cont.refs[op["name"]]
-                        if v is df:
+                        if v is val:
                             raise Violation("C18/rejected-creation-left-a-reference", {"op": op})
                     except KeyError:
                         pass
         elif k == "assign":
-            vid = self.visible(rec, op["src_where"], op["src"])
+            if op["src_where"] != "" and op["src_where"] not in rec["spaces"]:
+                return
+            vid = self.visible_vid(rec, op["src_where"], op["src"])
             if vid is None:
                 return
             cont = self.container(rec, op["where"])
             try:
                 setattr(cont, op["name"], rec["values"][vid])
                 rec["bind"][(op["where"], op["name"])] = vid
+                rec["plain"].pop((op["where"], op["name"]), None)
             except Exception as e:
                 self.events.append("assign rejected %s" % type(e).__name__)
         elif k == "rebind_plain":
             cont = self.container(rec, op["where"])
-            if (op["where"], op["name"]) not in rec["bind"] and self.visible(rec, op["where"], op["name"]) is None:
+            if self.visible(rec, op["where"], op["name"]) is None:
                 return
             try:
                 setattr(cont, op["name"], op["v"])
                 rec["bind"].pop((op["where"], op["name"]), None)
-                rec.setdefault("plain", {})[(op["where"], op["name"])] = op["v"]
+                rec["plain"][(op["where"], op["name"])] = op["v"]
             except Exception as e:
                 self.events.append("rebind rejected %s" % type(e).__name__)
         elif k == "del":
             cont = self.container(rec, op["where"])
             key = (op["where"], op["name"])
-            if key not in rec["bind"] and key not in rec.get("plain", {}):
+            if key not in rec["bind"] and key not in rec["plain"]:
                 return
             try:
                 delattr(cont, op["name"])
                 rec["bind"].pop(key, None)
-                rec.get("plain", {}).pop(key, None)
+                rec["plain"].pop(key, None)
             except Exception as e:
                 self.events.append("del rejected %s" % type(e).__name__)
         elif k == "update":
@@ -125,15 +177,28 @@ class Session:
             if not vids:
                 return
             vid = vids[op["i"] % len(vids)]
-            new = self.frame()
-            nid = self.nv
             try:
-                m.update_pandas(rec["values"][vid], new)
+                if rec["kind"][vid] == "new_pandas":
+                    new = self.frame()
+                    nid = self.nv
+                    text = None
+                    m.update_pandas(rec["values"][vid], new)
+                else:
+                    srcp, text = self.module_source()
+                    nid = self.nv
+                    m.update_module(rec["values"][vid], srcp)
+                    new = None
+                    for (w, n), v in rec["bind"].items():
+                        if v == vid:
+                            new = getattr(self.container(rec, w), n)
+                            break
             except Exception as e:
                 self.events.append("update rejected %s" % type(e).__name__)
                 return
             rec["values"][nid] = new
             rec["paths"][nid] = rec["paths"].get(vid)
+            rec["kind"][nid] = rec["kind"][vid]
+            rec["text"][nid] = text
             for key, v in list(rec["bind"].items()):
                 if v == vid:
                     rec["bind"][key] = nid
@@ -149,10 +214,14 @@ class Session:
                 f = os.path.join(p, rec["paths"][vid])
                 if not os.path.isfile(f):
                     raise Violation("C18/spec-file-not-written", {"path": rec["paths"][vid]})
-                back = pd.read_csv(f, index_col=0)
-                want = rec["values"][vid]
-                if list(back["x"]) != list(want["x"]):
-                    raise Violation("C18/spec-file-differs", {"path": rec["paths"][vid]})
+                if rec["kind"][vid] == "new_pandas":
+                    back = pd.read_csv(f, index_col=0)
+                    want = rec["values"][vid]
+                    if list(back["x"]) != list(want["x"]):
+                        raise Violation("C18/spec-file-differs", {"path": rec["paths"][vid]})
+                else:
+                    if open(f).read() != rec["text"][vid]:
+                        raise Violation("C18/spec-file-differs/module", {"path": rec["paths"][vid]})
             self.ctx.count("saves_checked", 1, "reach")
         elif k == "close":
             if len(self.models) < 2:
@@ -160,6 +229,87 @@ class Session:
             m.close()
             self.models.remove(rec)
             return
+        elif k == "new_space_refs":
+            # a new space created with refs={name: value}: the value is bound by the creation itself
+            if op["space"] in rec["spaces"] or op["space"] in m.refs:
+                return
+            vid = self.visible_vid(rec, op["src_where"], op["src"]) if (op["src_where"] == "" or op["src_where"] in rec["spaces"]) else None
+            refs = {op["name"]: rec["values"][vid]} if vid is not None else {op["name"]: op["v"]}
+            try:
+                m.new_space(op["space"], refs=refs)
+            except Exception as e:
+                self.events.append("new_space rejected %s" % type(e).__name__)
+                return
+            rec["spaces"][op["space"]] = []
+            if vid is not None:
+                rec["bind"][(op["space"], op["name"])] = vid
+            else:
+                rec["plain"][(op["space"], op["name"])] = op["v"]
+            self.ctx.count("spaces_created_with_refs", 1, "reach")
+        elif k == "copy_space":
+            if op["src"] not in rec["spaces"] or op["space"] in rec["spaces"] or op["space"] in m.refs:
+                return
+            seen = {}
+            for w in (self.mro(rec, op["src"]) or [op["src"]]):
+                for (ww, n), vid in rec["bind"].items():
+                    if ww == w and n not in seen:
+                        seen[n] = ("vid", vid)
+                for (ww, n), x in rec["plain"].items():
+                    if ww == w and n not in seen:
+                        seen[n] = ("plain", x)
+            try:
+                m.spaces[op["src"]].copy(m, op["space"])
+            except Exception as e:
+                self.events.append("copy rejected %s" % type(e).__name__)
+                return
+            rec["spaces"][op["space"]] = []
+            for n, (kind, x) in seen.items():
+                (rec["bind"] if kind == "vid" else rec["plain"])[(op["space"], n)] = x
+            self.ctx.count("spaces_copied", 1, "reach")
+        elif k == "del_space":
+            if op["space"] not in rec["spaces"]:
+                return
+            try:
+                delattr(m, op["space"])
+            except Exception as e:
+                self.events.append("del_space rejected %s" % type(e).__name__)
+                return
+            del rec["spaces"][op["space"]]
+            for d in (rec["bind"], rec["plain"]):
+                for key in [key for key in d if key[0] == op["space"]]:
+                    del d[key]
+            for n, bs in rec["spaces"].items():
+                if op["space"] in bs:
+                    bs.remove(op["space"])
+            self.ctx.count("spaces_deleted", 1, "reach")
+        elif k in ("add_base", "remove_base"):
+            s, t = op["space"], op["base"]
+            if s not in rec["spaces"] or t not in rec["spaces"] or s == t:
+                return
+            if k == "add_base":
+                if t in rec["spaces"][s]:
+                    return
+                rec["spaces"][s].append(t)
+                ok = all(self.mro(rec, n) is not None for n in rec["spaces"])
+                rec["spaces"][s].pop()
+                if not ok:
+                    return
+                try:
+                    m.spaces[s].add_bases(m.spaces[t])
+                except Exception as e:
+                    self.events.append("add_base rejected %s" % type(e).__name__)
+                    return
+                rec["spaces"][s].append(t)
+            else:
+                if t not in rec["spaces"][s]:
+                    return
+                try:
+                    m.spaces[s].remove_bases(m.spaces[t])
+                except Exception as e:
+                    self.events.append("remove_base rejected %s" % type(e).__name__)
+                    return
+                rec["spaces"][s].remove(t)
+            self.ctx.count("base_changes", 1, "reach")
         self.check(op)
 
     def check(self, op):
@@ -187,11 +337,24 @@ class Session:
                         raise Violation("C18/get_spec-inconsistent/after=" + op["op"], {})
                 except ValueError:
                     raise Violation("C18/get_spec-missing/after=" + op["op"], {})
-            # bindings themselves
-            for (where, name), vid in rec["bind"].items():
+            # bindings themselves, own and inherited
+            for where in [""] + sorted(rec["spaces"]):
                 cont = self.container(rec, where)
-                if getattr(cont, name) is not rec["values"][vid]:
-                    raise Violation("C18/reference-lost-its-value/after=" + op["op"], {"where": where, "name": name})
+                for name in NAMES:
+                    exp = self.visible(rec, where, name)
+                    if exp is None:
+                        continue
+                    try:
+                        have = getattr(cont, name)
+                    except AttributeError:
+                        raise Violation("C18/reference-missing/after=" + op["op"], {"where": where, "name": name})
+                    if exp[0] == "vid":
+                        if have is not rec["values"][exp[1]]:
+                            raise Violation("C18/reference-lost-its-value/after=" + op["op"], {"where": where, "name": name})
+                        if where != "" and (where, name) not in rec["bind"]:
+                            self.ctx.count("inherited_bindings_checked", 1, "reach")
+                    elif have != exp[1]:
+                        raise Violation("C18/reference-lost-its-value/plain/after=" + op["op"], {"where": where, "name": name})
             if len(want) >= 1 and any(list(rec["bind"].values()).count(v) > 1 for v in want_ids):
                 self.ctx.nontrivial = True
         if isinstance(library_self_check(), AssertionError):
@@ -200,14 +363,30 @@ class Session:
     def gen(self):
         rng = self.rng
         mi = rng.randrange(len(self.models))
-        where = rng.choice(["", "A", "B", "C"])
+        rec = self.models[mi]
+        pool = [""] + sorted(rec["spaces"])
+        where = rng.choice(pool)
         name = rng.choice(NAMES)
         r = rng.random()
+        if self.cfg.get("structure") and r < 0.22:
+            q = rng.random()
+            if q < 0.25:
+                return {"op": "new_space_refs", "mi": mi, "space": rng.choice(EXTRA), "name": name, "src_where": rng.choice(pool),
+                        "src": rng.choice(NAMES), "v": rng.randrange(100)}
+            if q < 0.45:
+                return {"op": "copy_space", "mi": mi, "src": rng.choice(SPACES + EXTRA), "space": rng.choice(EXTRA)}
+            if q < 0.65:
+                return {"op": "del_space", "mi": mi, "space": rng.choice(SPACES + EXTRA)}
+            if q < 0.85:
+                return {"op": "add_base", "mi": mi, "space": rng.choice(SPACES + EXTRA), "base": rng.choice(SPACES + EXTRA)}
+            return {"op": "remove_base", "mi": mi, "space": rng.choice(SPACES + EXTRA), "base": rng.choice(SPACES + EXTRA)}
         if r < 0.3:
             path = "files/%s.csv" % rng.choice(["p1", "p2", "p3", "p4"])
+            if self.cfg.get("modules") and rng.random() < 0.35:
+                return {"op": "new_module", "mi": mi, "where": where, "name": name, "path": "mods/%s.py" % rng.choice(["m1", "m2"])}
             return {"op": "new_pandas", "mi": mi, "where": where, "name": name, "path": path}
         if r < 0.5:
-            return {"op": "assign", "mi": mi, "where": where, "name": name, "src_where": rng.choice(["", "A", "B", "C"]), "src": rng.choice(NAMES)}
+            return {"op": "assign", "mi": mi, "where": where, "name": name, "src_where": rng.choice(pool), "src": rng.choice(NAMES)}
         if r < 0.6:
             return {"op": "rebind_plain", "mi": mi, "where": where, "name": name, "v": rng.randrange(100)}
         if r < 0.8:
@@ -224,17 +403,20 @@ class Session:
 class C18(PropBase):
     id = "C18"
     level = "exploration"
-    rule = ("one case = one seeded history over one or two models with spaces A, B(A), C: new_pandas (csv) on the model and on "
+    rule = ("one case = one seeded history over one or two models with spaces A, B(A), C (+ D, E created on the way): "
+            "new_pandas (csv) and new_module on the model and on "
             "spaces with colliding names and file locations (incl. hostile creations: name of a space, invalid name, taken "
             "file), plain assignment of the same value to further names, rebinding to plain values, deleting references "
-            "(base before derived and the reverse), update_pandas, saving, closing a model; after every step, per model: "
+            "(base before derived and the reverse), update_pandas / update_module, new_space(refs=...), Space.copy, deleting "
+            "spaces, add_bases / remove_bases, saving, closing a model; after every step, per model: "
             "iospecs values == values bound to at least one reference (by identity, no duplicates), no two specs share a "
             "file, get_spec consistent, references keep their values, system self-checks pass, a rejected creation leaves "
             "neither spec nor reference, saved files read back; non-trivial = some value was bound to two names at once; "
             "distinct = distinct event-log digest")
     tiers = {"quick": {"budget_s": 40, "timeout_s": 90}, "thorough": {"budget_s": 900, "timeout_s": 180}}
-    reach_probes = ["reach/states_checked", "reach/rejected_creations", "reach/saves_checked"]
-    assumptions = ["csv PandasData only (no Excel, no modules)", "real pandas and real files on tmpfs; no faults injected"]
+    reach_probes = ["reach/states_checked", "reach/rejected_creations", "reach/saves_checked", "reach/spaces_created_with_refs",
+                    "reach/spaces_copied", "reach/spaces_deleted", "reach/base_changes", "reach/inherited_bindings_checked"]
+    assumptions = ["csv PandasData and ModuleData (no Excel)", "real pandas and real files on tmpfs; no faults injected"]
 
     def execute(self, ctx):
         if ctx.doc is None:
